@@ -38,7 +38,7 @@ def stream_of(mon, case, open_keys):
     confirmation stream; everything else is the main stream."""
     tags = getattr(mon, 'FINDING_FEATURES', {})
     feats = set(case.get('features', ()))
-    hit = sorted(k for k, tag in tags.items() if k in open_keys and tag in feats)
+    hit = sorted(k for k, tag in tags.items() if k in open_keys and (feats & set([tag] if isinstance(tag, str) else tag)))
     return '+'.join(hit) if hit else 'main'
 
 
